@@ -157,10 +157,18 @@ def engine_ksched(pid, tier, seed, res, max_n=None):
                 c["maxc"] = rng.randint(1, 3)
                 dfs_cases.append(c)
     for c in dfs_cases:
+        if n_bad >= 4:
+            break  # runs hang / cannot be driven: already reported, do not spend the watchdog time again and again
         recs, complete = ksched.explore_all_schedules(c, max_runs=60 if tier == "quick" else 250)
+        n_bad += sum(1 for rec_ in recs for run_ in rec_["runs"] if run_["broken"] or run_["status"] == "hang")
         records.extend(recs)
         n_complete += 1 if complete else 0
     res.notes.append("all schedules explored exhaustively for %d of %d small cases (%s)" % (n_complete, len(dfs_cases), "quick: corpus" if tier == "quick" else "all shapes <= 3 nodes x 2 attribute assignments + corpus"))
+    # uncontrolled runs with slow node bodies
+    for c in sched_cases.SLOW_CORPUS:
+        if n_bad >= 4:
+            break
+        records.append(ksched.run_case(dict(c), sched_seed=None, slow=0.12))
     info = ksched.evaluate(records, prefix="ksched_%s" % pid)
     res.engine_info["ksched"] = dict(cases=len(cases), corpus=corpus_n, exhaustive_small=exhaustive, **{k: v for k, v in info.items() if k != "errors"})
     if info["errors"]:
@@ -173,7 +181,7 @@ def engine_ksched(pid, tier, seed, res, max_n=None):
             res.notes.append("generated case did not build: " + r["build_error"][:200])
             continue
         for ri, run in enumerate(r["runs"]):
-            base = dict(engine="ksched", case=case, sched_seed=r["sched_seed"], run_index=ri, choices=[x["choices"] for x in r["runs"][:ri + 1]])
+            base = dict(engine="ksched", case=case, sched_seed=r["sched_seed"], run_index=ri, choices=[x["choices"] for x in r["runs"][:ri + 1]], inline=[x.get("inline", []) for x in r["runs"][:ri + 1]])
             if run["status"] == "hang" or (run["broken"] and "spin" in run["broken"]):
                 res.hit("C09", "monitor", "call did not return / scheduler spins: " + str(run["broken"]), dict(base, kind="monitor"))
             if run["broken"]:
@@ -189,6 +197,8 @@ def engine_ksched(pid, tier, seed, res, max_n=None):
                 if seg["unparsable"]:
                     for p in SCHED_PROPS:
                         res.hit(p, "divergence", "trace not parsable into model labels: " + seg["unparsable"], dict(base, kind="unparsable", raw=seg.get("raw")))
+                    for p_, m_ in seg.get("monitor") or []:
+                        res.hit(p_, "monitor", m_, dict(base, kind="monitor"))
                     continue
                 labels = seg["labels"]
                 nblock = sum(1 for l, o in labels if l[0] == "W" and o[1])
@@ -264,7 +274,7 @@ def replay(pid, path):
     data = json.load(open(path))
     rp = data.get("replay") or {}
     if rp.get("engine") == "ksched":
-        rec = ksched.run_case(rp["case"], sched_seed=rp.get("sched_seed"), choose=rp.get("choices"))
+        rec = ksched.run_case(rp["case"], sched_seed=rp.get("sched_seed"), choose=rp.get("choices"), inline=rp.get("inline"))
         ksched.evaluate([rec], prefix="replay_%s" % pid)
         bad = []
         for run in rec["runs"]:
@@ -291,6 +301,18 @@ def replay(pid, path):
         res = Result()
         engine_kcompose.run(pid, "quick", data.get("seed", 0), res, only=[dict(variant="setup", case=rp["case"])] if rp.get("variant") == "setup" else [dict(prog=rp["prog"], ins=rp["ins"], outs=rp["outs"])])
         bad = [h for h in res.hits if h["prop"] == pid]
+        if bad:
+            print("VIOLATION property=%s replay=%s" % (pid, path))
+            for b in bad[:5]:
+                print("  " + b["desc"][:300])
+            return 1
+        print("replay of %s: property %s holds on the current tree" % (path, pid))
+        return 0
+    if eng == "scenario":
+        from .main import Result
+        res = Result()
+        scenarios.run(pid, "quick", 0, res)
+        bad = [h for h in res.hits if h["prop"] == pid and (h.get("replay") or {}).get("scenario") == rp.get("scenario")]
         if bad:
             print("VIOLATION property=%s replay=%s" % (pid, path))
             for b in bad[:5]:
@@ -395,6 +417,12 @@ CONF_RULE = ("K-conf cases: random DAGs (priorities, sequential flags, three res
 for _p in ("C04", "C05", "C07", "C08"):
     REGISTRY[_p]["engines"] = list(REGISTRY[_p]["engines"]) + [engine_kconf.run]
     REGISTRY[_p]["rule"] = REGISTRY[_p]["rule"] + " || " + CONF_RULE
+
+from . import scenarios  # noqa: E402
+
+for _p in ("C09", "C14", "C17"):
+    REGISTRY[_p]["engines"] = list(REGISTRY[_p]["engines"]) + [scenarios.run]
+    REGISTRY[_p]["rule"] += " || hand-written multi-call scenarios without the controller (harness/scenarios.py): failing calls that leave nodes running followed by another failing call; a node calling another DAG at run time; the first awaits of an AsyncDAG started together"
 
 REGISTRY["C02"]["engines"] = [engine_ksched, engine_kvalue.run]
 REGISTRY["C02"]["rule"] = SCHED_RULE + " || " + VALUE_RULE
